@@ -423,6 +423,39 @@ func streamRace(thorough bool) {
 		}
 	}
 	emit("C 20 poisoned-pool "+strconv.Itoa(n), res)
+
+	// v2 pool: no buffer may be in the pool twice (a second Put on some path would hand one scratch slice to two
+	// concurrent parsers). Deterministic probe on one goroutine: empty the pool, run ONE call of every kind (accepted and
+	// every kind of rejection), then take two buffers out without putting any back — they must be different arrays.
+	var inputs []string
+	for _, w := range v20.skeletons() {
+		inputs = append(inputs, v20.render(w))
+		inputs = append(inputs, v20.tokenEdits(w)...)
+	}
+	inputs = dedupe(inputs)
+	rng.Shuffle(len(inputs), func(i, j int) { inputs[i], inputs[j] = inputs[j], inputs[i] })
+	limit := 600
+	if thorough {
+		limit = 20000
+	}
+	if len(inputs) > limit {
+		inputs = inputs[:limit]
+	}
+	res = "same"
+	var keep [][]string
+	for _, in := range inputs {
+		keep = keep[:0]
+		for k := 0; k < 6; k++ {
+			keep = append(keep, gocvss20.VerifPoolGet()) // drain (and hold on to) whatever is pooled
+		}
+		v20.parseOutcome(in)
+		a, b := gocvss20.VerifPoolGet(), gocvss20.VerifPoolGet()
+		if len(a) > 0 && len(b) > 0 && &a[0] == &b[0] {
+			res = "diff pool-holds-one-buffer-twice-after:" + hexS(in)
+			break
+		}
+	}
+	emit("C 20 pool-unique "+strconv.Itoa(len(inputs)), res)
 }
 
 func (v *version) fullOutcome(s string) string {
